@@ -162,6 +162,50 @@ FUZZ = dict(
 )
 
 
+class AllIn:
+    """When a betting round is collected and nobody (or only one player)
+    still has chips while at least two players remain and streets are still
+    to come, the hands are tabled first (all-in showdown) and the remaining
+    streets are run out afterwards - never the other way round."""
+
+    def __init__(self):
+        self.viol = []
+        self.expect = None
+        self.shown = False
+
+    def __call__(self, s, op):
+        k = op_kind(op) if op is not None else None
+        if k is None:
+            return
+        if self.expect is not None and not self.viol:
+            if k in ('burn_card', 'deal_hole', 'deal_board',
+                     'stand_pat_or_discard'):
+                self.viol.append(V(
+                    ID, 'run_out_before_all_in_showdown', '',
+                    f'{self.expect}; the next operation is {op!r} and no'
+                    ' hand has been tabled'))
+            self.expect = None
+        if k in ('show_or_muck_hole_cards', 'select_runout_count'):
+            self.shown = True
+        if k == 'collect_bets' and not self.shown and s.status \
+                and s.street_index is not None \
+                and s.street_index < len(s.streets) - 1:
+            live = [i for i in s.player_indices if s.statuses[i]]
+            rich = [i for i in live if s.stacks[i] > 0]
+            draws_to_come = any(st_.draw_status
+                                for st_ in s.streets[s.street_index + 1:])
+            # (while a draw is still to come the hands stay hidden and the
+            # players draw first - the hands could not be tabled before)
+            hidden = any(not all(s.hole_card_statuses[i]) for i in live)
+            # (a hand that is face up already needs no tabling)
+            if len(live) >= 2 and len(rich) <= 1 and not draws_to_come \
+                    and hidden and any(
+                    op_kind(o) in ('deal_hole', 'deal_board')
+                    for o in s.operations):
+                self.expect = (f'after {op!r} on street {s.street_index}'
+                               f' players {live} remain, with chips {rich}')
+
+
 def budget(tier):
     if tier == 'quick':
         return dict(examples=6400, wall=100)
@@ -187,14 +231,15 @@ def strategy(tier):
 def check(case, stats):
     cfg = case['config']
     h = H()
+    allin = AllIn()
     ph = observed_phase(cfg)
     if ph is not None:
         stats.count('class:observed_run')
-    res = run_case(case, hooks=h, observed=ph)
+    res = run_case(case, hooks=h, observed=ph, observers=(allin,))
     stats.count('outcome:' + str(res.outcome))
     if res.outcome == 'discard':
         return []
-    out = list(h.viol)
+    out = list(h.viol) + list(allin.viol)
     if res.outcome in ('crash', 'hang', 'runaway'):
         out.append(V(ID, 'engine_crash', exc_key(res.exc),
                      f'{res.exc_stage}: {type(res.exc).__name__}: {res.exc}'
